@@ -56,8 +56,42 @@ class Ctx:
         self.queries += 1
         s = str(r)
         if s == "unknown":
+            # nonlinear real arithmetic: retry with the nlsat tactic on the same assertions, then with cvc5 (wheel) on the SMT-LIB text
+            s = self._retry_unknown(assumptions)
+        if s == "unknown":
             self.unknown = True
         return s
+
+    def _retry_unknown(self, assumptions) -> str:
+        try:
+            t0 = time.time()
+            s2 = z3.Then("simplify", "purify-arith", "qfnra-nlsat").solver()
+            s2.set("timeout", 60000)
+            s2.add(*self.solver.assertions())
+            s2.add(*assumptions)
+            r = str(s2.check())
+            self.solver_s += time.time() - t0
+            self.queries += 1
+            if r in ("sat", "unsat"):
+                if r == "sat":
+                    self._alt_model = s2.model()
+                return r
+        except Exception:
+            pass
+        try:
+            from .smt import cvc5_check
+            t0 = time.time()
+            s3 = z3.Solver()
+            s3.add(*self.solver.assertions())
+            s3.add(*assumptions)
+            r = cvc5_check(s3.to_smt2(), timeout_ms=60000)
+            self.solver_s += time.time() - t0
+            self.queries += 1
+            if r == "unsat":
+                return "unsat"       # (a cvc5 'sat' has no z3 model to replay: stay inconclusive)
+        except Exception:
+            pass
+        return "unknown"
 
     def decide(self, term) -> bool:
         term = z3.simplify(term)
